@@ -7,12 +7,13 @@ single-replica document and every target object without nulls, `PatchByJSON` suc
 IS the target, and the script is applied as one atomic unit (nothing / one operation / one transaction unit announcing its
 length).  Documents shaped by remote operations: `DP.DocInv` is kept by every applicable delivery (DocRemoteInv), so the theorems
 hold in every state a replica reaches by public calls AND deliveries from the server log (`patchByJSON_in_any_reachable_state`).  Other replicas: C01; atomicity on
-failure: C09.  REST endpoint: correspondence slice `rest` (+ `Model/Rest`), not yet a theorem.
+failure: C09.  REST endpoint (`Store.patchDocument`, Proofs/RestPatch, fourth round): answer = target, stored = answered, refusal and no-op change nothing; tie: correspondence slice `rest` (+ `Model/Rest`).
 -/
 import Orda.Proofs.PatchDiff
 import Orda.Proofs.DocPatch
 import Orda.Proofs.DocRemoteInv
 import Orda.Proofs.DocTxNet
+import Orda.Proofs.RestPatch
 namespace Orda.Props.C19
 open Orda
 
@@ -114,5 +115,64 @@ theorem patch_brings_every_replica_to_the_same_value (cuid : Nat → String) (n 
     (NoConc net i → ∀ (j : Nat) (dj : Doc), DNet.Holds net2 j dj → dj.view.canon = (JVal.obj tgt).canon) := by
   obtain ⟨_, _, hall, hno⟩ := dtx_patch_propagates h hi tgt hn hk h1 hsync hq
   exact ⟨hall, fun hc j dj hj => (hno hc j dj hj).1⟩
+
+/-! ## The REST endpoint itself (`Store.patchDocument` = server/service/service_patch_document.go), fourth round -/
+
+/-- the ANSWER of the endpoint: for an existing document whose rebuilt latest state satisfies the replica invariant, and any target
+    object without nulls and duplicate keys, the endpoint answers OK with the target -/
+theorem rest_patch_answers_the_target
+    (st : Store) (colName key tmpDuid tmpCuid : String) (col : CollectionDoc) (d : DatatypeDoc) (r0 : Replica) (ver : Nat)
+    (hc : st.getCollection colName = some col) (hd : st.getDatatypeByKey col.num key = some d) (ht : d.typ = .document)
+    (hl : st.latest d = some (r0, ver))
+    (hinv : DP.DocInv { r0 with opId := { r0.opId with cuid := tmpCuid }, cp := ⟨ver, 0⟩ })
+    (tgt : List (String × JVal)) (hn : (JVal.obj tgt).hasNull = false) (hk : DC.JKeysND (.obj tgt)) :
+    ∃ v, (st.patchDocument colName key (.obj tgt) tmpDuid tmpCuid).2.1 = .ok v ∧ v.canon = (JVal.obj tgt).canon :=
+  RestP.patchDocument_answers_target st colName key tmpDuid tmpCuid col d r0 ver hc hd ht hl hinv tgt hn hk
+
+/-- … also when the key does not exist yet (the document is created) -/
+theorem rest_patch_creates_the_target
+    (st : Store) (colName key tmpDuid tmpCuid : String) (col : CollectionDoc)
+    (hc : st.getCollection colName = some col) (hd : st.getDatatypeByKey col.num key = none)
+    (tgt : List (String × JVal)) (hn : (JVal.obj tgt).hasNull = false) (hk : DC.JKeysND (.obj tgt)) :
+    ∃ v, (st.patchDocument colName key (.obj tgt) tmpDuid tmpCuid).2.1 = .ok v ∧ v.canon = (JVal.obj tgt).canon :=
+  RestP.patchDocument_creates_target st colName key tmpDuid tmpCuid col hc hd tgt hn hk
+
+/-- the STORE after the call: the latest state rebuilt from what the endpoint stored (newest snapshot + the stored operations after
+    it, applied as remote operations) has the target as its value — "what was answered is what was stored".  Named hypotheses: the log
+    invariant of C06, the rebuilt state stands at the end of a NON-EMPTY log (`hpos`: without it the statement is false —
+    `RestP.Ex.emptyLog_not_stored`: a document record with an empty log makes the endpoint answer OK and store nothing), nobody is
+    recorded under the endpoint's administrative client id, arrays have causal insertion histories (kept by every call and delivery:
+    `DLR.histOK_life`).  That the push is ACCEPTED is proved, not assumed (`RestP.processPack_admin`). -/
+theorem rest_patch_stores_what_it_answers
+    (st : Store) (colName key tmpDuid tmpCuid : String) (col : CollectionDoc) (d : DatatypeDoc) (r0 : Replica) (ver : Nat)
+    (hc : st.getCollection colName = some col) (hd : st.getDatatypeByKey col.num key = some d) (ht : d.typ = .document)
+    (hl : st.latest d = some (r0, ver))
+    (hinv : DP.DocInv { r0 with opId := { r0.opId with cuid := tmpCuid }, cp := ⟨ver, 0⟩ })
+    (hlog : LogInv st) (hend : ver = d.sseqEnd) (hpos : 0 < ver)
+    (hadmin : d.sub patchApiCuid false = none)
+    (hhist : ∀ d0, r0.state = .doc d0 → DLR.HistOK d0)
+    (tgt : List (String × JVal)) (hn : (JVal.obj tgt).hasNull = false) (hk : DC.JKeysND (.obj tgt)) :
+    ∃ d' r' ver', (st.patchDocument colName key (.obj tgt) tmpDuid tmpCuid).1.getDatatypeByKey col.num key = some d' ∧
+      (st.patchDocument colName key (.obj tgt) tmpDuid tmpCuid).1.latest d' = some (r', ver') ∧
+      (∃ dd, r'.state = .doc dd ∧ dd.view.canon = (JVal.obj tgt).canon) :=
+  RestP.patchDocument_stores_target st colName key tmpDuid tmpCuid col d r0 ver hc hd ht hl hinv hlog hend hpos hadmin hhist tgt hn hk
+
+/-- a refused patch (unknown collection, a key of another type, a target the document refuses) changes nothing in the store -/
+theorem rest_patch_refusal_changes_nothing (st : Store) (colName key : String) (target : JVal) (tmpDuid tmpCuid : String)
+    (code : Nat) (h : (st.patchDocument colName key target tmpDuid tmpCuid).2.1 = .rpcErr code) :
+    (st.patchDocument colName key target tmpDuid tmpCuid).1 = st :=
+  RestP.patchDocument_refusal_changes_nothing st colName key target tmpDuid tmpCuid code h
+
+/-- patching to the value the document already has stores nothing, announces nothing, starts no snapshot update -/
+theorem rest_patch_to_current_value_is_silent
+    (st : Store) (colName key tmpDuid tmpCuid : String) (col : CollectionDoc) (d : DatatypeDoc) (r0 : Replica) (ver : Nat)
+    (dd : Doc)
+    (hc : st.getCollection colName = some col) (hd : st.getDatatypeByKey col.num key = some d) (ht : d.typ = .document)
+    (hl : st.latest d = some (r0, ver)) (hs : r0.state = .doc dd)
+    (hinv : DP.DocInv { r0 with opId := { r0.opId with cuid := tmpCuid }, cp := ⟨ver, 0⟩ }) :
+    (st.patchDocument colName key dd.view tmpDuid tmpCuid).1 = st ∧
+    (st.patchDocument colName key dd.view tmpDuid tmpCuid).2.2.1 = [] ∧
+    (st.patchDocument colName key dd.view tmpDuid tmpCuid).2.2.2 = [] :=
+  RestP.patchDocument_same_is_silent st colName key tmpDuid tmpCuid col d r0 ver dd hc hd ht hl hs hinv
 
 end Orda.Props.C19
